@@ -12,6 +12,7 @@ import io
 import json
 import logging
 import os
+import re
 import signal
 import subprocess
 import sys
@@ -21,6 +22,7 @@ from fractions import Fraction
 import numpy as np
 
 KEY_TIMEOUT = 60
+_EXC_LINE = re.compile(r"^[A-Za-z_][\w.]*(Error|Exception|Exit|Interrupt|Timeout|Warning)\b")
 
 
 class _Timeout(BaseException):
@@ -128,12 +130,17 @@ def tool_cmd(tool):
     return [sys.executable, "-m", mod]
 
 
-def run_tool_subprocess(tool, args, timeout=KEY_TIMEOUT):
+def run_tool_subprocess(tool, args, timeout=KEY_TIMEOUT, tmpdir=None):
+    """tmpdir: where the tool's own temporary files go (the sharded writer
+    leaves its buffer directories behind) - inside the check's scratch space"""
     res = {"outcome": "ok", "exit": 0, "exc": "", "where": "", "writes": [],
            "haswrites": False}
+    env = dict(os.environ)
+    if tmpdir:
+        env["TMPDIR"] = tmpdir
     try:
         p = subprocess.run(tool_cmd(tool) + list(args), capture_output=True, text=True,
-                           timeout=timeout, env=dict(os.environ))
+                           timeout=timeout, env=env)
     except subprocess.TimeoutExpired:
         res["outcome"] = "timeout"
         res["exc"] = "Timeout"
@@ -141,8 +148,11 @@ def run_tool_subprocess(tool, args, timeout=KEY_TIMEOUT):
     res["exit"] = p.returncode
     if p.returncode != 0 and "Traceback (most recent call last)" in p.stderr:
         res["outcome"] = "raised"
-        lines = [l for l in p.stderr.strip().splitlines() if l.strip()]
-        last = lines[-1] if lines else ""
+        text = p.stderr.replace("\r", "\n")
+        text = text[text.rindex("Traceback (most recent call last)"):]
+        lines = [l for l in text.splitlines() if l.strip()]
+        exc_lines = [l for l in lines[1:] if _EXC_LINE.match(l)]
+        last = exc_lines[-1] if exc_lines else (lines[-1] if lines else "")
         res["exc"] = last.split(":")[0].split(".")[-1].strip()
         res["msg"] = last[:200]
         fr = [l for l in lines if l.strip().startswith("File ") and "neuroglancer_scripts" in l]
@@ -339,7 +349,8 @@ def convert_inprocess(prepd, timeout=KEY_TIMEOUT):
 
 
 def convert_subprocess(prepd, timeout=KEY_TIMEOUT):
-    return run_tool_subprocess("volume-to-precomputed", prepd["argv"], timeout=timeout)
+    return run_tool_subprocess("volume-to-precomputed", prepd["argv"], timeout=timeout,
+                               tmpdir=prepd["dir"])
 
 
 def mapping_of(plan, facts, out_dtype, iu, ou):
